@@ -172,6 +172,24 @@ def extract_prologue(fn: ast.FunctionDef) -> Prologue:
                 derived = any(isinstance(x, ast.Name) and x.id == HS for e in backward_slice(base, defs) for x in ast.walk(e))
                 if derived:
                     ivs.append((a, b, ast.unparse(base)))
+    if not ivs:
+        # f(X[..., 1:]) − f(X[..., :-1]): the same expression on both sides up to the slice of the sorted heights
+        defs = local_assignments(fn)
+        for st in assigns:
+            for n in ast.walk(st.value):
+                if isinstance(n, ast.BinOp) and isinstance(n.op, ast.Sub) and not isinstance(n.left, ast.Subscript):
+                    def slices(e):
+                        out = set()
+                        for x in ast.walk(e):
+                            if isinstance(x, ast.Subscript) and last_slice(x) is not None and any(
+                                    isinstance(y, ast.Name) and y.id == HS for e2 in backward_slice(x.value, defs) for y in ast.walk(e2)):
+                                out.add((last_slice(x), ast.unparse(x)))
+                        return out
+                    sl, sr = slices(n.left), slices(n.right)
+                    if len(sl) == 1 and len(sr) == 1:
+                        (a, ta), (b, tb) = next(iter(sl)), next(iter(sr))
+                        if a != b and ast.unparse(n.left).replace(ta, tb) == ast.unparse(n.right):
+                            ivs.append((a, b, ta))
     p.facts['interval_slices'] = sorted({(a, b) for a, b, _ in ivs})
     return p
 
@@ -330,10 +348,16 @@ def run(ctx, rep):
     )
     rep.rule('C08.P', "event bookkeeping of every coalescent copy: marks ↔ heights, ascending sort with one permutation, lineages = cumsum(marks)[:-1], C(k,2) = k(k−1)/2, "
                       "later-minus-earlier intervals, minus signs, log N at coalescent events only, θ lookup mark; sibling agreement")
+    rep.rule('C08.I', "closed-form integrals: each piece of the interval integral is the antiderivative of 1/N(t) for the N(t) whose log is added at coalescent events; degenerate-case switches are two-sided and scale-free")
+    rep.rule('C08.M', "tip multiplicities (unique with counts) are taken per tree: along the last axis or on a single row, never pooled over the batch")
     rep.not_decided += ["numerical equality with the Kingman density", "model equivalences (all pieces equal = constant)", "scaling law", "ties between event times",
                         "interleaving of grid and tree events at run time"]
     try:
         found = check_prologues(ctx, rep)
         check_signs(ctx, rep, found)
+        from props.c08_integrals import check_integrals
+        check_integrals(ctx, rep)
+        from props.c08_integrals import check_multiplicities
+        check_multiplicities(ctx, rep)
     except Unsupported as u:
         rep.undecided('C08.P', 'coalescent', f"line {getattr(u.node, 'lineno', 0)}", str(u))
